@@ -386,8 +386,11 @@ class Check:
     # ---- known findings
     def known_findings(self):
         kf = {}
-        p = os.path.join(ROOT, 'KNOWN_FINDINGS.txt')
-        if os.path.exists(p):
+        import glob
+        files = [os.path.join(ROOT, 'KNOWN_FINDINGS.txt')] + sorted(glob.glob(os.path.join(ROOT, 'known_findings', '*.txt')))
+        for p in files:
+            if not os.path.exists(p):
+                continue
             for ln in open(p):
                 m = re.match(r'finding:\s+property=(\S+)\s+id=(\d+)\s+(.*)', ln.strip())
                 if m and m.group(1) == self.prop:
